@@ -74,10 +74,125 @@ def reduce_index(t, facts):
         try:
             if a_[0] != 'sel' and b_[0] != 'sel' and nf_(a_).equals(nf_(b_)):
                 return a_
+            # equal in the branch where it matters: if ¬c forces b = a, the choice is a
+            if a_[0] != 'sel' and b_[0] != 'sel' and entails(facts | {mk_not(c)}, ('icmp', 'le', a_, b_)) and entails(facts | {mk_not(c)}, ('icmp', 'ge', a_, b_)):
+                return a_
+            if a_[0] != 'sel' and b_[0] != 'sel' and entails(facts | {c}, ('icmp', 'le', a_, b_)) and entails(facts | {c}, ('icmp', 'ge', a_, b_)):
+                return b_
         except Exception:
             pass
         return ('sel', c, a_, b_)
     return t
+
+
+def prefix_characterisation(it, IDX, S, x, lenS, facts0):
+    """Decide  IDX = (first k with end_k > x, else len − 1)  from its definition, whatever tests and searches produced IDX:
+    on every path of the select tree, with what the path's conditions say about P(k) := end_k > x
+       (P(k) / ¬P(k) literals;  found(search over [a,b)) ⇒ P(a+idx) ∧ ¬P on [a, a+idx);  ¬found ⇒ ¬P on [a,b)),
+    the chosen index i must satisfy  (P(i) known ∨ i = len−1)  and  ¬P known on all of [0, i).
+    -> list of problems (empty = proved)"""
+    from ..terms import mk_not
+    nf = NF()
+    probs = []
+
+    def leaves(t, conds):
+        if isinstance(t, tuple) and t and t[0] == 'sel':
+            yield from leaves(t[2], conds + [(t[1], True)])
+            yield from leaves(t[3], conds + [(t[1], False)])
+        else:
+            yield t, conds
+
+    def p_of(cond):
+        """cond as a statement about P at one index -> (index term, polarity) or None"""
+        for e in subterms(cond):
+            if e[0] == 'elem' and e[1] == S and e[3] == 'end':
+                pc = pred_class(cond, e, x)
+                if pc == 'gt':
+                    return e[2], True
+                if pc == 'le':
+                    return e[2], False
+        return None
+
+    def domain(sterm):
+        if sterm[0] == 'stream' and sterm[1] == 'src' and sterm[2][0] == 'view' and sterm[2][1] == S:
+            return sterm[2][2], sterm[2][3]
+        return None
+    n_leaves = 0
+    for i, conds in leaves(IDX, []):
+        n_leaves += 1
+        if n_leaves > 32:
+            return ['too many cases']
+        known_p = []
+        not_p = []          # intervals [lo, hi)
+        facts = set(facts0)
+        bad = None
+        for c, pol in conds:
+            cc = c if pol else mk_not(c)
+            facts.add(cc)
+            base = c[1] if c[0] == 'not' else c
+            flip = (c[0] == 'not')
+            if base[0] == 'found':
+                dom = domain(base[1])
+                if dom is None or base[1][3] != ('str', 'ref') and False:
+                    bad = 'a search over %s' % term_str(base[1])[:100]
+                    break
+                a_, b_ = dom
+                k_ = base[2]
+                pk = p_of(base[3])
+                if pk is None or not nf(pk[0]).equals(nf(a_) + nf(k_)) or not pk[1]:
+                    bad = 'a search for `%s`' % term_str(base[3])[:100]
+                    break
+                idx = ('firstidx', base[1], base[2], base[3])
+                if (pol and not flip) or (not pol and flip):
+                    known_p.append(it.iadd(a_, idx))
+                    not_p.append((a_, it.iadd(a_, idx)))
+                    facts.add(('icmp', 'lt', it.iadd(a_, idx), b_))
+                else:
+                    not_p.append((a_, b_))
+                continue
+            pk = p_of(base)
+            if pk is not None:
+                holds = pk[1] == ((pol and not flip) or (not pol and flip))
+                if holds:
+                    known_p.append(pk[0])
+                else:
+                    not_p.append((pk[0], it.iadd(pk[0], ('ic', 1))))
+        if bad:
+            probs.append('the piece index depends on %s' % bad)
+            continue
+        from .panics import entails
+        # infeasible path (its own conditions contradict each other)?
+        if entails(facts, ('icmp', 'ge', ('ic', 0), ('ic', 1))):
+            continue
+        i_red = reduce_index(i, frozenset(facts))
+        if not isinstance(i_red, tuple) or i_red[0] == 'sel':
+            probs.append('piece index %s is not decided on a path' % term_str(i)[:120])
+            continue
+        # [0, i) covered by the intervals on which no end exceeds x
+        cur = ('ic', 0)
+        progressed = True
+        while progressed and not nf(cur).equals(nf(i_red)):
+            progressed = False
+            for lo, hi in not_p:
+                if nf(lo).equals(nf(cur)) or entails(facts, ('icmp', 'le', lo, cur)) and entails(facts, ('icmp', 'gt', hi, cur)):
+                    if not nf(hi).equals(nf(cur)):
+                        cur = hi
+                        progressed = True
+                        break
+        covered = nf(cur).equals(nf(i_red)) or entails(facts, ('icmp', 'ge', cur, i_red))
+        if not covered:
+            probs.append('index %s is chosen although an earlier piece (from %s on) may already end after x' % (term_str(i_red)[:80], term_str(cur)[:60]))
+        last_ = it.isub(lenS, ('ic', 1))
+        is_last = nf(i_red).equals(nf(lenS) - RF_ONE) or (entails(facts, ('icmp', 'le', i_red, last_)) and entails(facts, ('icmp', 'ge', i_red, last_)))
+        if not is_last and not any(nf(k).equals(nf(i_red)) for k in known_p):
+            probs.append('index %s is chosen although its end is not known to exceed x (and it is not the last piece)' % term_str(i_red)[:80])
+    if n_leaves == 0:
+        probs.append('no piece index')
+    return probs
+
+
+from ..ratfun import RF as _RF
+RF_ONE = _RF.const(1)
 
 
 def check(cx):
@@ -108,6 +223,18 @@ def check(cx):
             return
         # the search may sit in a helper that evaluate() calls: every search met while interpreting it belongs to it
         searches = [e for e in a.it.events if e['kind'] == 'search']
+        front_form = len(searches) == 1 and not searches[0]['rev'] and (
+            whole_view(searches[0]['found'][1], 'self.segments') or
+            searches[0]['found'][1] == ('stream', 'src', ('view', S, ('ic', 0), ('i-', lenS, ('ic', 1))), ('str', 'ref')))
+        if not front_form:
+            # not the one-search shape: decide the index from its definition instead
+            pr = prefix_characterisation(a.it, IDX, S, x, lenS, [('icmp', 'ne', lenS, ('ic', 0))])
+            okp = not pr
+            detail = 'piece index = first k with end_k > x, else len − 1 (decided path by path from what each path knows about the ends)'
+            for r in RULES[:-1]:
+                rep.ob(r, inst, okp, detail if okp else '; '.join(pr)[:300], fn=inst, file=file, line=line, key=None if okp else 'C02:shape:' + inst,
+                       msg='Piecewise::evaluate does not select the first piece whose end exceeds x (else the last): ' + '; '.join(pr)[:400])
+            return
         if len(searches) != 1:
             for r in RULES[:-1]:
                 rep.ob(r, inst, False, 'expected one search over the segments, found %d' % len(searches), fn=inst, file=file, line=line,
